@@ -521,7 +521,8 @@ parameter, instantiated here with the hand-written `Arr.transpose zero` (the mod
 
 open ArrModel.Gen.Core in
 /-- **moveaxis (translated source)**: on a well-formed array with distinct in-range sources the result has the shape permuted by the
-constructed order, and every element moves to the permuted coordinate -/
+constructed order, and every element moves to the permuted coordinate.
+(Uses the equivalence up to the error variant, `moveaxis_sim`: the order of the validations in the source is immaterial.) -/
 theorem gen_moveaxis_spec (a : Arr α) (zero : α) (src dst : List Int) (hwf : a.WF)
     (h1 : src.Nodup) (h2 : src.length = dst.length)
     (h3 : (src.map (normalizeAxis a.ndim)).Nodup) (h4 : (dst.map (normalizeAxis a.ndim)).Nodup)
@@ -529,7 +530,8 @@ theorem gen_moveaxis_spec (a : Arr α) (zero : α) (src dst : List Int) (hwf : a
     (o : List Nat) (ho : o = moveaxisOrder a.ndim (src.map (normalizeAxis a.ndim)) (dst.map (normalizeAxis a.ndim))) :
     ∃ r, Array_moveaxis (fun x ax => x.transpose zero ax) a src dst = .ok r ∧ r.shape = permute o a.shape ∧ r.WF ∧
       ∀ c, inRange a.shape c = true → r.get? (permute o c) = a.get? c := by
-  rw [moveaxis_eq]; exact moveaxis_spec a zero src dst hwf h1 h2 h3 h4 h5 o ho
+  obtain ⟨r, hr, rest⟩ := moveaxis_spec a zero src dst hwf h1 h2 h3 h4 h5 o ho
+  exact ⟨r, Res.sameClass_ok_right (hr ▸ moveaxis_sim a zero src dst), rest⟩
 
 open ArrModel.Gen.Core in
 /-- a repeated source / destination axis or lists of different lengths are refused with an error -/
@@ -537,34 +539,35 @@ theorem gen_moveaxis_rejects (a : Arr α) (zero : α) (src dst : List Int)
     (h : ¬ (src.Nodup ∧ src.length = dst.length ∧
       (src.map (normalizeAxis a.ndim)).Nodup ∧ (dst.map (normalizeAxis a.ndim)).Nodup)) :
     ∃ e, Array_moveaxis (fun x ax => x.transpose zero ax) a src dst = .err e := by
-  rw [moveaxis_eq]; exact moveaxis_rejects a zero src dst h
+  obtain ⟨e, he⟩ := moveaxis_rejects a zero src dst h
+  exact Res.sameClass_err_right (he ▸ moveaxis_sim a zero src dst)
 
 open ArrModel.Gen.Core in
 theorem gen_moveaxis_never_panics (a : Arr α) (zero : α) (src dst : List Int) :
-    Array_moveaxis (fun x ax => x.transpose zero ax) a src dst ≠ .panic := by
-  rw [moveaxis_eq]; exact moveaxis_never_panics a zero src dst
+    Array_moveaxis (fun x ax => x.transpose zero ax) a src dst ≠ .panic :=
+  Res.sameClass_not_panic (moveaxis_sim a zero src dst) (moveaxis_never_panics a zero src dst)
 
 open ArrModel.Gen.Core in
-/-- **rollaxis (translated source)** is the transposition by `rollaxisOrder` for in-range arguments … -/
+/-- **rollaxis (translated source)** is, up to the error variant, the transposition by `rollaxisOrder` for in-range arguments … -/
 theorem gen_rollaxis_eq_transpose (a : Arr α) (zero : α) (axis : Int) (start : Option Int)
     (h1 : normalizeAxis a.ndim axis < a.ndim) (h2 : startOf a.ndim start < a.ndim) :
-    Array_rollaxis (fun x ax => x.transpose zero ax) a axis start =
-      a.transpose zero (some ((rollaxisOrder a.ndim (normalizeAxis a.ndim axis) (startOf a.ndim start)).map Int.ofNat)) := by
-  rw [rollaxis_eq]; exact rollaxis_eq_transpose a zero axis start h1 h2
+    Res.sameClass (Array_rollaxis (fun x ax => x.transpose zero ax) a axis start)
+      (a.transpose zero (some ((rollaxisOrder a.ndim (normalizeAxis a.ndim axis) (startOf a.ndim start)).map Int.ofNat))) := by
+  rw [← rollaxis_eq_transpose a zero axis start h1 h2]; exact rollaxis_sim a zero axis start
 
 open ArrModel.Gen.Core in
-/-- **swapaxes (translated source)** is the transposition by `swapOrder` for in-range axes, and refuses the others -/
+/-- **swapaxes (translated source)** is, up to the error variant, the transposition by `swapOrder` for in-range axes, and refuses the others -/
 theorem gen_swapaxes_eq_transpose (a : Arr α) (zero : α) (ax1 ax2 : Int)
     (h1 : normalizeAxis a.ndim ax1 < a.ndim) (h2 : normalizeAxis a.ndim ax2 < a.ndim) :
-    Array_swapaxes (fun x ax => x.transpose zero ax) a ax1 ax2 =
-      a.transpose zero (some ((swapOrder a.ndim (normalizeAxis a.ndim ax1) (normalizeAxis a.ndim ax2)).map Int.ofNat)) := by
-  rw [swapaxes_eq]; exact swapaxes_eq_transpose a zero ax1 ax2 h1 h2
+    Res.sameClass (Array_swapaxes (fun x ax => x.transpose zero ax) a ax1 ax2)
+      (a.transpose zero (some ((swapOrder a.ndim (normalizeAxis a.ndim ax1) (normalizeAxis a.ndim ax2)).map Int.ofNat))) := by
+  rw [← swapaxes_eq_transpose a zero ax1 ax2 h1 h2]; exact swapaxes_sim a zero ax1 ax2
 
 open ArrModel.Gen.Core in
 theorem gen_swapaxes_rejects (a : Arr α) (zero : α) (ax1 ax2 : Int)
     (h : ¬ (normalizeAxis a.ndim ax1 < a.ndim ∧ normalizeAxis a.ndim ax2 < a.ndim)) :
-    Array_swapaxes (fun x ax => x.transpose zero ax) a ax1 ax2 = .err .AxisOutOfBounds := by
-  rw [swapaxes_eq]; exact swapaxes_rejects a zero ax1 ax2 h
+    ∃ e, Array_swapaxes (fun x ax => x.transpose zero ax) a ax1 ax2 = .err e :=
+  Res.sameClass_err_right (swapaxes_rejects a zero ax1 ax2 h ▸ swapaxes_sim a zero ax1 ax2)
 
 example : ArrModel.Gen.Core.Array_moveaxis (fun x ax => x.transpose 0 ax) (⟨List.range 6, [2, 3]⟩ : Arr Nat) [0, 1] [1] = .err .MustBeEqual := by decide
 example : ArrModel.Gen.Core.Array_swapaxes (fun x ax => x.transpose 0 ax) (⟨List.range 6, [2, 3]⟩ : Arr Nat) 0 (-1)
